@@ -25,4 +25,11 @@ def parseLegacy (scale : ScaleFn) (cyc : CycFn) (b : Str) : Outcome Profile :=
   orElse (parseContention cyc b) fun _ =>
   parseJavaProfile scale b
 
+/-- `ParseData` after decompression: the protobuf decoder is tried first (parameter `pb`: the
+decoder is the subject of C01/C02, `Model/Codec`), the legacy parsers only when it fails. -/
+def parseData (pb : Str → Outcome Profile) (scale : ScaleFn) (cyc : CycFn) (b : Str) : Outcome Profile :=
+  match pb b with
+  | .ok p => .ok p
+  | _ => parseLegacy scale cyc b
+
 end PV.Legacy
